@@ -116,9 +116,9 @@ class Env:
     def syms(self, prefix, n, **kw):
         return [self.sym(f"{prefix}{i}", **kw) for i in range(n)]
 
-    def assume(self, cond):
+    def assume(self, cond, check=True):
         if self.mode == "sym":
-            CTX.assume(sb(cond))
+            CTX.assume(sb(cond), check=check)
         else:
             if not bool(cond):
                 raise ReplayInvalid("assumption false at the replay point")
@@ -314,6 +314,7 @@ def run_item(harness, item, *, tier="quick", max_paths=256, timeout_ms=20000, ce
     val_points = []           # (path_hyps, {label: impl term})
     labels_seen = []
     twin_cands = set()
+    dup_keys = {}
 
     def one_run(twin_label=None, collect=True):
         env = Env("sym", tier=tier, seed=seed, twin_label=twin_label, params=params)
@@ -358,6 +359,10 @@ def run_item(harness, item, *, tier="quick", max_paths=256, timeout_ms=20000, ce
     def run_main():
         out = one_run()
         for ob, v in out["sat"]:
+            nk = sum(1 for pr in pending_replays if pr["key"] == ob.key)
+            if nk >= 2:      # at most two candidate counterexamples per obligation key and work item
+                dup_keys[ob.key] = dup_keys.get(ob.key, 0) + 1
+                continue
             pending_replays.append({"label": ob.label, "key": ob.key, "kind": ob.kind, "model": v.model,
                                     "detail": (ob.msg + " " + v.detail).strip(), "cell": v.cell,
                                     "goal": ob.goal, "hyps": out["hyps"]})
@@ -420,6 +425,7 @@ def run_item(harness, item, *, tier="quick", max_paths=256, timeout_ms=20000, ce
                     break
                 model = v2.model
             if rec["reproduced"]:
+                rec["more_of_same_key"] = dup_keys.get(pr["key"], 0)
                 res.violations.append(rec)
             else:
                 res.inconclusive.append({"label": pr["label"], "detail": "sat but not reproduced on the numpy backend: "
